@@ -1,6 +1,7 @@
 package props
 
 import (
+	"math"
 	"encoding/json"
 	"fmt"
 	"sort"
@@ -134,7 +135,7 @@ func c04WindowClass(start, length, L int) string {
 		return "len<0"
 	case start > L:
 		return "start>L"
-	case start+length > L:
+	case length > L-start: // (not start+length > L: the sum overflows for lengths near the largest integer)
 		return "end>L"
 	}
 	return ""
@@ -1407,6 +1408,17 @@ func c04RunExtract(maxList int) func(c *mc.Ctx, seqs []string) {
 				c04Check(c, c04Case{Op: "InverseCoordinates", Seqs: seqs, X: s, Y: l})
 			}
 		}
+		// lengths near the largest integer: start+length overflows
+		for s := -1; s <= L+1; s++ {
+			for _, l := range []int{math.MaxInt, math.MaxInt - 1, math.MaxInt - L, math.MinInt} {
+				c04Check(c, c04Case{Op: "SubAlign", Seqs: seqs, X: s, Y: l})
+				c04Check(c, c04Case{Op: "InverseCoordinates", Seqs: seqs, X: s, Y: l})
+			}
+		}
+		for _, s := range []int{math.MaxInt, math.MinInt} {
+			c04Check(c, c04Case{Op: "SubAlign", Seqs: seqs, X: s, Y: 1})
+			c04Check(c, c04Case{Op: "InverseCoordinates", Seqs: seqs, X: s, Y: math.MaxInt})
+		}
 		for x := 0; x <= L; x++ {
 			c04Check(c, c04Case{Op: "Resplit", Seqs: seqs, X: x})
 		}
@@ -1528,6 +1540,35 @@ func c04Tasks(tier string) []mc.Task {
 		}
 	}
 
+	// (ii') rows holding multi-byte characters (a FASTA file with an accented letter): Transpose and
+	// DiffWithFirst work on bytes; all alignments of 2 and 3 rows of 3 bytes built from {A, C, é}
+	ts = append(ts, mc.Task{Name: "shape#multibyte", Run: func(c *mc.Ctx) {
+		var strs []string
+		var rec func(cur string)
+		rec = func(cur string) {
+			if len(cur) == 3 {
+				strs = append(strs, cur)
+				return
+			}
+			for _, t := range []string{"A", "C", "\u00e9"} {
+				if len(cur)+len(t) <= 3 {
+					rec(cur + t)
+				}
+			}
+		}
+		rec("")
+		for _, a := range strs {
+			for _, b := range strs {
+				c04RunShape(c, []string{a, b})
+				for _, d := range strs {
+					if strings.Contains(a+b+d, "\u00e9") && (d == strs[0] || d == strs[len(strs)-1] || d == b) {
+						c04RunShape(c, []string{a, b, d})
+					}
+				}
+			}
+		}
+	}})
+
 	// (iii) Concat / Append on pairs of alignments
 	catN, catL := 2, 2
 	if thorough {
@@ -1621,7 +1662,7 @@ func init() {
 	mc.Register(&mc.Prop{
 		ID:    "C04",
 		Level: "exploration",
-		Rule: cliStreamRule[1:] + " " + "bounded-exhaustive enumeration, every case on a fresh alignment (and, for all 1x4 and 2x3 [thorough: 2x4] alignments, the window/list/complement/trimming/reference-coordinate cases also on an object that was first the same rows rotated by one column, resp. reversed, answered every coordinate query in that state and was edited in place residue by residue), results compared (names, row order, residues, Length()) with column picking on the model rows; alignments are all n-row alignments of the given lengths over {A,C,-} (rows named a,b,c); integer arguments range over every value of [-1, L+1]. " +
+		Rule: cliStreamRule[1:] + " " + "bounded-exhaustive enumeration, every case on a fresh alignment (and, for all 1x4 and 2x3 [thorough: 2x4] alignments, the window/list/complement/trimming/reference-coordinate cases also on an object that was first the same rows rotated by one column, resp. reversed, answered every coordinate query in that state and was edited in place residue by residue), results compared (names, row order, residues, Length()) with column picking on the model rows; alignments are all n-row alignments of the given lengths over {A,C,-} (rows named a,b,c); integer arguments range over every value of [-1, L+1] (windows also with lengths at and near the largest and smallest integer); Transpose / DiffWithFirst also on rows of 3 bytes built from {A, C, U+00E9}. " +
 			"(iv) n=1 L=0..4, n=2 L=0..4, n=3 L=0..3 (thorough: n=1 L<=6, n=2 L<=5, n=3 L<=4): SubAlign and InverseCoordinates for all (start,length) in [-1,L+1]^2 (the inverse windows also extracted and concatenated as subseq --reverse does, followed by a further extraction from the same alignment); SubAlign(0,k) ++ SubAlign(k,L-k) for k=0..L; TrimSequences for all sizes x both ends; SelectSites and InversePositions for all site lists of length 1..3 (n=3: 1..2) over [-1,L+1], repeats and any order. " +
 			"(v) same alignments with L>=1, every row and one unknown name as reference: RefCoordinates for all (start,length) in [-1,L+1]^2, followed by SubAlign of the returned window; RefSites for the same site lists. " +
 			"(vi) Split: n=1 L=1..6, n=2 L=1..4, n=3 L=1..2 (thorough: n=3 L=3, and n=2 L=5..6 over {A,-}) x every map of the L sites onto exactly 1, 2 or 3 blocks x 5 ways of building the PartitionSet (AddRange with runs; with greedy arithmetic progressions a-b/k, end on the last site; the same with the end extended to just before the next multiple; String() of the first re-parsed by io/partition; a partition file with the modulo forms parsed by io/partition), plus every 2-block map of L+1 sites (must be refused). " +
